@@ -423,7 +423,11 @@ zix_btree_grow_up(ZixBTree* const t)
   new_root->data.inode.children[0U] = t->root;
 
   // Split the old root to get two balanced siblings
-  zix_btree_split_child(t->allocator, new_root, 0U, t->root);
+  if (!zix_btree_split_child(t->allocator, new_root, 0U, t->root)) {
+    zix_aligned_free(t->allocator, new_root);
+    return ZIX_STATUS_NO_MEM;
+  }
+
   t->root = new_root;
 
   return ZIX_STATUS_SUCCESS;
